@@ -185,6 +185,7 @@ def cmd_check(pid, tier, seed):
     violations = []      # (entry, v, path)
     known_hits = []
     inconclusive = []
+    partial = []
     validated = 0
     interp_replays = []
     tv_mismatch = []
@@ -219,8 +220,15 @@ def cmd_check(pid, tier, seed):
             if h["verdict"] == "reach-failed":
                 inconclusive.append("%s: reachability witness did not come back sat (vacuous harness?)" % entry)
             if h["verdict"] == "inconclusive":
+                # thorough-tier harnesses flagged "partial_ok" in their manifest are explorations under a
+                # time budget: running out of it bounds what was explored (reported as PARTIAL and in the
+                # evidence), it is not a failed decision. Solver unknowns and engine errors stay inconclusive.
+                flagged = any(x.get("entry") == entry and x.get("partial_ok") for x in m["harnesses"])
                 for s in h.get("inconclusive") or ["?"]:
-                    inconclusive.append("%s: %s" % (entry, s))
+                    if tier == "thorough" and flagged and s.startswith("exploration budget exhausted"):
+                        partial.append("%s: %s" % (entry, s))
+                    else:
+                        inconclusive.append("%s: %s" % (entry, s))
             # translator validation on reach twins is done below via their first violation
             for i, v in enumerate(h.get("violations") or []):
                 rp = os.path.join(rdir, "%s-%d.json" % (entry, i))
@@ -289,6 +297,8 @@ def cmd_check(pid, tier, seed):
         print("KNOWN-FINDING: property=%s %s [%s; harness %s, %s %r, replay %s]" % (pid, k.get("text", ""), kid, entry, v["kind"], v["label"], os.path.relpath(rp, ROOT)))
     for entry, v, rp in violations:
         print("VIOLATION property=%s replay=%s   (%s: %s %r at %s)" % (pid, os.path.relpath(rp, ROOT), entry, v["kind"], v["label"], v["where"]))
+    for s in partial:
+        print("PARTIAL property=%s %s" % (pid, s))
     for s in inconclusive[:40]:
         print("INCONCLUSIVE property=%s reason=%s" % (pid, s))
     # ---- evidence
@@ -331,6 +341,7 @@ def cmd_check(pid, tier, seed):
             "replayed_by_interpreted_ssa_under_recorded_schedule": interp_replays,
             "known_findings_reproduced": [k.get("id", k.get("text", "")[:60]) for k, _, _, _ in known_hits],
             "inconclusive": inconclusive[:20],
+            "partial_exploration": partial,
         },
         "assumptions": assumptions_of(pid),
         "wall_s": round(wall, 2),
